@@ -253,7 +253,7 @@ async def run_async(S: dict, maxc: int) -> dict:
     ex.subscribe_to_order_events(on_order_event)
     outcome = "returned"
     try:
-        await asyncio.wait_for(d.run(stop_signals=[]), timeout=30)
+        await asyncio.wait_for(d.run(stop_signals=[]), timeout=120)
     except BaseException as e:  # noqa: BLE001
         outcome = f"raised:{type(e).__name__}"
     logging.disable(logging.NOTSET)
